@@ -28,8 +28,8 @@ import (
 )
 
 type c13dCase struct {
-	Alias   string `json:"mx_name"`      // plain | cname-secure | cname-insecure
-	AD      bool   `json:"addresses_ad"` // address records DNSSEC-authenticated
+	Alias   string `json:"mx_name"`                // plain | cname-secure | cname-insecure
+	AD      bool   `json:"addresses_ad"`           // address records DNSSEC-authenticated
 	AtCanon string `json:"tlsa_at_canonical_name"` // none | match | mismatch | servfail | insecure   (plain: at the MX name)
 	AtOrig  string `json:"tlsa_at_mx_name"`        // the same (only for aliases)
 	TLS     string `json:"tls"`                    // none | leaf
@@ -37,6 +37,8 @@ type c13dCase struct {
 	// resolver does not answer and the answers come from a second, non-loopback server
 	// (its AD flag is not to be trusted: nothing is DNSSEC-authenticated then)
 	Resolver string `json:"resolver,omitempty"`
+	// Addr: address records of the (canonical) MX name: "" = A only, "aaaa" = IPv6-only host, "a+aaaa"
+	Addr string `json:"address_records,omitempty"`
 }
 
 type c13dNopLog struct{}
@@ -54,7 +56,14 @@ func c13dRun(w *c13World, c c13dCase) (fp, detail, outcome string) {
 		zones[mx+"."] = mockdns.Zone{CNAME: canon + ".", AD: c.Alias == "cname-secure"}
 		addrName = canon
 	}
-	zones[addrName+"."] = mockdns.Zone{A: []string{"127.0.0.1"}, AD: c.AD}
+	switch c.Addr {
+	case "aaaa":
+		zones[addrName+"."] = mockdns.Zone{AAAA: []string{"::1"}, AD: c.AD}
+	case "a+aaaa":
+		zones[addrName+"."] = mockdns.Zone{A: []string{"127.0.0.1"}, AAAA: []string{"::1"}, AD: c.AD}
+	default:
+		zones[addrName+"."] = mockdns.Zone{A: []string{"127.0.0.1"}, AD: c.AD}
+	}
 	leaf := w.chains[0].Certs[0]
 	put := func(name, kind string) {
 		tn := "_25._tcp." + name + "."
@@ -182,7 +191,7 @@ func c13dRun(w *c13World, c c13dCase) (fp, detail, outcome string) {
 func TestVerifC13Discovery(t *testing.T) {
 	r := vx.Start("C13", "discovery")
 	defer r.Finish()
-	r.Rule("TLSA discovery for one MX through the real PrepareConn/CheckConn of the dane policy and the real DNSSEC-aware resolver against a loopback DNS server: MX name {plain, secure CNAME, insecure CNAME} x address records authenticated or not x TLSA at the canonical name {none, matching EE, mismatching EE, SERVFAIL, not authenticated} x TLSA at the MX name (for aliases, the same five) x TLS {none, matching leaf}; plus the same records served by a non-loopback fallback resolver (the loopback one does not answer); oracle: nothing from a non-loopback resolver is authenticated, a failed lookup of the applicable record set defers (temporary error), usable records are applied as in the statement, absent / non-authenticated records neither grant nor refuse. Non-trivial: all cases")
+	r.Rule("TLSA discovery for one MX through the real PrepareConn/CheckConn of the dane policy and the real DNSSEC-aware resolver against a loopback DNS server: MX name {plain, secure CNAME, insecure CNAME} x address records {A, AAAA only, both} authenticated or not x TLSA at the canonical name {none, matching EE, mismatching EE, SERVFAIL, not authenticated} x TLSA at the MX name (for aliases, the same five) x TLS {none, matching leaf}; plus the same records served by a non-loopback fallback resolver (the loopback one does not answer); oracle: nothing from a non-loopback resolver is authenticated, a failed lookup of the applicable record set defers (temporary error), usable records are applied as in the statement, absent / non-authenticated records neither grant nor refuse. Non-trivial: all cases")
 	w := c13NewWorld()
 	if rp := r.Replay(); rp != nil {
 		var c c13dCase
@@ -237,24 +246,26 @@ func TestVerifC13Discovery(t *testing.T) {
 				}
 				for _, ao := range origs {
 					for _, t := range []string{"none", "leaf"} {
-						idx++
-						if !r.Mine(idx) {
-							continue
+						for _, addr := range []string{"", "aaaa", "a+aaaa"} {
+							idx++
+							if !r.Mine(idx) {
+								continue
+							}
+							c := c13dCase{Alias: alias, AD: ad, AtCanon: ac, AtOrig: ao, TLS: t, Addr: addr}
+							fp, detail, oc := c13dRun(w, c)
+							r.Eval()
+							r.Nontrivial(vx.JSON(c))
+							if fp == "HARNESS:dns" {
+								r.HarnessError(detail)
+								return
+							}
+							if fp != "" {
+								r.Violation(fp, detail+"\ncase: "+vx.JSON(c), c)
+								continue
+							}
+							r.Outcome(oc)
+							r.Sample(c)
 						}
-						c := c13dCase{Alias: alias, AD: ad, AtCanon: ac, AtOrig: ao, TLS: t}
-						fp, detail, oc := c13dRun(w, c)
-						r.Eval()
-						r.Nontrivial(vx.JSON(c))
-						if fp == "HARNESS:dns" {
-							r.HarnessError(detail)
-							return
-						}
-						if fp != "" {
-							r.Violation(fp, detail+"\ncase: "+vx.JSON(c), c)
-							continue
-						}
-						r.Outcome(oc)
-						r.Sample(c)
 					}
 				}
 			}
